@@ -518,6 +518,22 @@ def c13_chains(tier, rnd, excs=("ZeroDivisionError",)):
     return progs
 
 
+def c13_modes(tier, rnd):
+    """tal:on-error together with tal:content / tal:replace on one element, each with its own text / structure mode:
+    the fallback is written in the mode of the on-error statement, the content in that of its own"""
+    progs = []
+    for stmt in ("content", "replace"):
+        for cs in (False, True):
+            for os_ in (False, True):
+                for excs in (("ZeroDivisionError",), ("KeyError", "RecursionError")):
+                    al = Alloc(tier)
+                    el = Open(sub=(stmt, cs, al.call("content", [S("h")] + [EXC(c) for c in excs])),
+                              oe=(os_, al.call("content", [S("h"), S("h2")])), sattr=["class"])
+                    items = [Text("pre"), el, Text("k"), CLOSE, Text("post")]
+                    progs.append(program(items, al.dom, fam="C13.mode:%s:%s/%s" % (stmt, "S" if cs else "T", "S" if os_ else "T")))
+    return progs
+
+
 def c13_metal(tier, rnd):
     """tal:on-error on METAL elements: on a define-macro element it is part of the macro (used from another template or
     rendered in place), on a fill-slot element it guards the filler; a failure inside the macro / the filler is
@@ -578,7 +594,8 @@ def c12_raising(tier, rnd):
         classes = EXC12 if tier != "quick" else [EXC12[n % len(EXC12)], EXC12[(n + 3) % len(EXC12)]]
         for c in classes:
             al = Alloc("quick")
-            items = [Text("pre\n  ", al.call("content", [S("a")]), "\n")]
+            # (every other program holds characters in front that str.splitlines() would break at: only LF / CR end a line)
+            items = [Text("pre\x0b\x0c\u2028 \x85\u2029\x1c\n  " if n % 2 else "pre\n  ", al.call("content", [S("a")]), "\n")]
             if "case" in sub:
                 items.append(Open(sw=al.call("switch"), name="section"))
                 items.append(Text("\n   "))
